@@ -168,6 +168,12 @@ def rule_cause_chain(ctx, rid, r):
             ok = classes == ["NodeError"] and h.name and norm(rs.cause) == f"{h.name}.__cause__" and \
                 isinstance(rs.exc, ast.Call) and norm(rs.exc.func).endswith("CallError") and len(rs.exc.args) == 1 and \
                 norm(rs.exc.args[0]) == f"{h.name}.node"
+            if not ok and classes == ["NodeError"] and h.name and rs.cause is None and isinstance(rs.exc, ast.Call) and rs.exc in run.own_calls():
+                # the same through the chaining helper (assigning __cause__ also suppresses the context, like `from`):
+                # raise helper(e.node, e.__cause__) where the helper sets __cause__ to its second parameter (checked below)
+                hf = [f_ for f_ in m.callee_funcs(run, rs.exc) if f_.name == "create_chained_call_error"]
+                ok = bool(hf) and len(rs.exc.args) == 2 and not rs.exc.keywords and norm(rs.exc.args[0]) == f"{h.name}.node" \
+                    and norm(rs.exc.args[1]) == f"{h.name}.__cause__"
             ctx.ob(rid, f"{run.short}/carrier-to-CallError", bool(ok), loc(run, rs),
                    "CallError(e.node) from e.__cause__ for the carrier class only" if ok else
                    "run's handler does not translate the carrier as CallError(e.node) from e.__cause__", norm(rs))
